@@ -270,6 +270,24 @@ def plan_file(ctx, fi, f, exhaustive, n_edits):
     return tasks
 
 
+def plan_crafted(ctx, files, fi, f):
+    """Crafted variants of an .xz file (field changed + covering CRC32 recomputed): each becomes a pseudo file whose
+    undamaged-looking bytes are decoded as they are (`one <api> <flags> w`). Appends to `files`, returns tasks."""
+    tasks = []
+    for (what, field, data) in L.crafted_variants(f, ctx.rng):
+        g = dict(f)
+        g["data"] = data
+        g["name"] = f["name"] + " [crafted: " + what + "]"
+        g["crafted"] = (what, field)
+        files.append(g)
+        gi = len(files) - 1
+        # (a task goes to the model driver iff its first op's API has a model: keep the threaded decoder apart)
+        for cfgs in ([("sd", 0), ("sd", 8), ("sbd", 0), ("auto", 8), ("sd", 16)], [("mt2", 8), ("mt4", 0)]):
+            tasks.append((gi, ["one %s %d w" % c for c in cfgs], [(a, fl, "w", 0, None) for (a, fl) in cfgs]))
+        ctx.count("crafted:" + field)
+    return tasks
+
+
 # ------------------------------------------------------------------------------------------------------------------
 # the direct oracle
 # ------------------------------------------------------------------------------------------------------------------
@@ -282,16 +300,23 @@ def parse_res(line):
 
 
 def lz_trailing_rule_case(f, api, flags, kind, pos, res):
-    """.lz with LZMA_CONCATENATED: whatever follows a valid member and does not begin with the magic bytes is "trailing
-    data" and ends the decoding with success. Damage that makes a later member unrecognisable (its magic, a cut inside
-    the magic, the version byte 1->0 of an earlier member, ...) therefore yields success with the output of the first j
-    members only. Returns True iff this result is exactly that: a proper whole-member prefix of the original."""
+    """The known finding KEY_LZ_TRAILING, matched tightly: .lz with LZMA_CONCATENATED (or `xz -dc`), success, output =
+    exactly the first j < k members, and the damage is (a) a bit flip in the four magic bytes of member j+1, (b) a bit
+    flip in the version byte of member j (1 -> 0: its 8-byte Member size field and everything after it become
+    "trailing data"), or (c) a cut 1-3 bytes into member j+1. Anything else that loses data is NOT covered by the key."""
     if f["fmt"] != "lz" or not L.concat_mode(f, api, flags) or res["lcp"] != res["outlen"]:
         return False
+    units = f["units"]
     acc = 0
-    for j, (s, e, pl) in enumerate(f["units"][:-1]):
-        acc += pl
-        if res["outlen"] == acc and acc < len(f["plain"]):
+    for j in range(1, len(units)):
+        acc += units[j - 1][2]
+        if res["outlen"] != acc or acc >= len(f["plain"]):
+            continue
+        s_next = units[j][0]
+        s_last = units[j - 1][0]
+        if kind == "f" and (s_next <= pos // 8 < s_next + 4 or pos // 8 == s_last + 4):
+            return True
+        if kind == "t" and s_next < pos < s_next + 4:
             return True
     return False
 
@@ -313,6 +338,8 @@ def judge(f, desc, res):
     if not succ:
         return "rejected-%d" % ret, None, None
     same = lambda want: res["outlen"] == want and res["lcp"] == want
+    if kind == "w" and f.get("crafted"):
+        return "crafted-accepted", "a file with the non-payload field %s changed (%s) was accepted" % (f["crafted"][1], f["crafted"][0]), None
     if kind == "w":
         want = total if concat else p1
         if not same(want):
@@ -425,12 +452,17 @@ def run(ctx):
     files = seeds_x + small + legacy
     ctx.log("files: %d (%d seeds, %d generated .xz, %d .lzma/.lz) in %.1fs" % (len(files), len(seeds_x), len(small), len(legacy), time.time() - t0))
     tasks = []
+    crafted_src = []
     for fi, f in enumerate(files):
         exhaustive = not f.get("large") and len(f["data"]) <= 2048
         tasks += plan_file(ctx, fi, f, exhaustive, n_edits)
+        if f["fmt"] == "xz" and exhaustive and not f["name"].startswith("seed:"):
+            crafted_src.append((fi, f))
         ctx.count("files:" + f["fmt"] + (":exhaustive" if exhaustive else ":random-edits"))
         for c in f.get("checks", []):
             ctx.count("stream-check:" + L.CHECK_NAMES.get(c, str(c)))
+    for (fi, f) in crafted_src:
+        tasks += plan_crafted(ctx, files, fi, f)
     tasks.sort(key=lambda t: -len(t[2]) * (len(files[t[0]]["plain"]) + 2 * len(files[t[0]]["data"]) + 200))
     ctx.log("tasks: %d, cases: %d" % (len(tasks), sum(len(t[2]) for t in tasks)))
 
